@@ -55,3 +55,43 @@ PROPS["C11"] = {
         lane("TestCorpus", "corpus", 5000, 20000, shards=4, must_classes=["accepted"]),
     ],
 }
+
+PROPS["C09"] = {
+    "pkg": "c09",
+    "level": "exploration",
+    "technique": "property-based testing (rapid) with a grammar-directed source generator; round-trip (parse-format-parse) tree equality and idempotence oracles",
+    "level_text": ("Generated BCL/j5s sources (every token kind and statement shape, escapes, regex slashes, nested arrays, comments, multi-line "
+                   "descriptions, blank-line and indentation noise) that the parser accepts are formatted; the output must parse, denote the same "
+                   "position-free tree (types, tags+marks, qualifiers, open/closed, nesting, keys, operators, literal kind+value, trailing comments, "
+                   "descriptions as paragraphs of words), carry the same comment tokens, and be a fixed point of the formatter."),
+    "level_note": "Sampled over the generator's space; trees are compared through the exported AST (literal kind and value via Value.GoString); comments and descriptions are compared modulo surrounding whitespace.",
+    "rule": ("generated: bclgen.File (1-40 statements, depth<=4); strings: one string/regex literal over the escapable alphabet plus arbitrary runes "
+             "in tag, qualifier, array and assignment position; corpus: repository .bcl/.j5s files. Inputs the parser rejects are discarded and counted. "
+             "Non-trivial: text contains an escape, a '/' in a regex or value, an array, a block comment, a multi-line description, a qualifier, "
+             "a trailing comment or non-canonical blank lines; distinct by 64-bit hash of the text."),
+    "assumptions": ["CRLF-free input, as the quantifier states"],
+    "lanes": [
+        lane("TestCorpus", "corpus", 0, 0, norapid=True),
+        lane("TestGenerated", "generated", 20000, 100000, shards=16, must_classes=["escaped-newline", "block-comment", "multiline-description", "array"]),
+        lane("TestStrings", "strings", 20000, 100000, shards=8),
+    ],
+}
+
+PROPS["C19"] = {
+    "pkg": "c19",
+    "level": "exploration",
+    "technique": "property-based testing (rapid); differential oracle: independent LSP-style edit applier vs the formatter output, plus edit well-formedness predicate",
+    "level_text": ("For generated sources the formatter accepts, FmtDiffs must return without error; the edits must be ascending, non-overlapping and "
+                   "within [0,#lines]; applying them with an independent line-range applier (all ranges relative to the original text) must give "
+                   "Fmt(x) up to trailing blank lines."),
+    "level_note": "Sampled; #lines is len(split(text,'\\n')); the applier clamps (L=#lines,0) to end of document as LSP clients do.",
+    "rule": ("generated: bclgen.File; lines: documents assembled from a pool of 23 line shapes (trailing comments, multi-line tokens, blank runs, "
+             "two statements on a line); corpus: repository files as they are and with indentation stripped / blank lines doubled. "
+             "Non-trivial: at least one edit is produced; distinct by 64-bit hash of the text."),
+    "assumptions": [],
+    "lanes": [
+        lane("TestCorpus", "corpus", 0, 0, norapid=True),
+        lane("TestGenerated", "generated", 20000, 100000, shards=16, must_classes=["has-edits", "trailing-comment", "multiline-block-comment"]),
+        lane("TestLines", "lines", 30000, 150000, shards=8, must_classes=["has-edits", "two-statements-one-line", "multiline-token"]),
+    ],
+}
